@@ -7,6 +7,8 @@
 //! Every family generates an *op line*, then executes the real code by parsing that line, so
 //! a replay goes through exactly the same path as the original run.
 mod fam_math;
+mod hist;
+mod hist_oracle;
 mod rng;
 
 use std::collections::BTreeMap;
@@ -53,6 +55,7 @@ pub trait Family {
 pub fn families() -> Vec<Box<dyn Family>> {
     let mut v: Vec<Box<dyn Family>> = Vec::new();
     fam_math::register(&mut v);
+    hist::register(&mut v);
     v
 }
 
